@@ -728,6 +728,25 @@ pub fn run(out: &mut Out, tier: &str, seed: u64, prop: &str) {
             let ans = req_case(out, &mut w, &mut rc, prop, &text, &vars);
             if ans.starts_with("ok ") { round_trip(out, &mut rc, &text, &vars); out.stat("c08.targeted_markers"); }
         }
+        // the property quantifies over every ACCEPTED requirement, not only over grammar derivations: near-valid texts (empty or
+        // half-empty groups, dangling separators) and hostile mutations of valid ones — whatever the parser lets through has to
+        // render to a text that parses back to an equal value
+        {
+            let near = ["numpy ()", "numpy()", "numpy ( )", "n[x] ( \t ) ; os_name == 'a'", "numpy (>=1.0,)", "numpy (,)", "numpy ( , >=1 )", "numpy >=1,", "numpy >=1,,<2", "numpy[]", "numpy [ ]", "numpy[] ()", "numpy ;", "numpy ; ",
+                "numpy @ https://x.org/p ;", "n (>=1)(<2)", "n (>=1) ()", "n[a,]", "n[,a]", "n (>=1 ; os_name == 'a'", "n @ https://x.org/p ()", "n () ; os_name == 'a'", "n ( ) @ https://x.org/p", "foo.whl ()", "n ()()", "n (())"];
+            for t in near {
+                let ans = req_case(out, &mut w, &mut rc, prop, t, &vars);
+                if ans.starts_with("ok ") { round_trip(out, &mut rc, t, &vars); out.stat("c08.near_valid_accepted"); } else { out.stat("c08.near_valid_rejected"); }
+            }
+            let seeds = ["requests [security,tests] >= 2.8.1, == 2.8.* ; python_version > \"3.8\"", "name @ https://x.org/a ; os_name == 'a'", "a(>=1,<2)", "a[b] @ file:///x", "pkg>=1.0;extra=='x'", "n ( >=1 , <2 ) ; os_name == 'a'"];
+            for i in 0..(if big { 4000 } else { 800 }) {
+                let seed = rng.pick(&seeds).to_string();
+                let text = hostile(&mut rng, &seed);
+                let _ = i;
+                let ans = req_case(out, &mut w, &mut rc, prop, &text, &vars);
+                if ans.starts_with("ok ") { round_trip(out, &mut rc, &text, &vars); out.stat("c08.hostile_accepted"); } else { out.stat("c08.hostile_rejected"); }
+            }
+        }
     }
     // ---- corpus of minimised past failures, first ------------------------------------------------------
     if prop == "C06" || prop == "C18" {
@@ -1047,6 +1066,22 @@ pub fn run(out: &mut Out, tier: &str, seed: u64, prop: &str) {
             "  ./\u{e9}[,]", "   ./x\u{65e5}[!]", "\t ./dir/\u{fc}[!]", " \u{a0}./\u{e9}\u{e9}[a,,b]", "  /\u{1F600}[\u{e9}]",
             "p [x]", "p\t[x] ; os_name=='a'", "/\u{65e5}[\u{672c}]", "p[x]\u{3000};os_name=='a'", "p;\u{3000}#x", "/a;[x]\u{3000}#c", "/a#[x]\u{2003}x", "/a;[x] #c", "C:\\a\\b.whl[x]", "a:b", "1a:b", "../x[y] # c"];
         for t in targeted { unnamed_case(out, &mut w, &mut rc, t, &vars); out.nontrivial(format!("unnamed {t}")); }
+        // a variable whose VALUE contains another reference: replaced once, the replacement text is not scanned again — for the
+        // unnamed form exactly as for `name @ <same text>` (both are compared with the model, and with one another)
+        {
+            let nested: Vec<(String, String)> = vec![("VP_HOME_DIR".into(), "mirror/${VP_TOKEN_1}".into()), ("VP_TOKEN_1".into(), "nightly".into()), ("VP_EMPTY".into(), "${VP_HOME_DIR}".into())];
+            for t in ["https://h.org/${VP_HOME_DIR}/pkg-1.0-py3-none-any.whl", "git+https://h.org/${VP_HOME_DIR}/r.git@main", "https://${VP_EMPTY}.org/p.whl[x] ; os_name == 'a'", "file:///srv/${VP_HOME_DIR}/p.whl", "/srv/${VP_HOME_DIR}/p.whl", "./${VP_HOME_DIR}/p.whl[dev]"] {
+                let a = unnamed_case(out, &mut w, &mut rc, t, &nested);
+                let b = req_case(out, &mut w, &mut rc, prop, &format!("n @ {}", t.split('[').next().unwrap_or(t).split(" ;").next().unwrap_or(t)), &nested);
+                let url_of = |ans: &str, key: &str| ans.split(' ').find_map(|f| f.strip_prefix(key)).map(|x| x.to_string());
+                let (ua, ub) = (url_of(&a, "url="), url_of(&b, "vu=url:").and_then(|v| v.split(':').nth(1).map(|x| x.to_string())));
+                // (a relative path is resolved against the working directory each entry point is given: not compared)
+                if !t.starts_with('.') && a.starts_with("ok ") && b.starts_with("ok ") && ua.is_some() && ua != ub {
+                    out.oracle_fail("C19", "the unnamed form and `name @ <same text>` read different URLs from a text whose variable holds another reference", serde_json::json!({"text": t, "unnamed_url": ua.map(|h| unhex(&h)), "named_url": ub.map(|h| unhex(&h)), "feature": "non-pep508-extensions"}));
+                }
+                out.stat("unnamed.nested_variable_values");
+            }
+        }
         let bases = ["https://x.org/a-1.0.whl[dev]", "../rel/p.tar.gz ; os_name == 'a'", "/abs/path[dev,test] ; python_version > '3'", "file:///tmp/x[a]", "git+https://github.com/a/b.git@main#egg=b", "${VP_HOME_DIR}/x [x]", "./p # c"];
         let n = if big { 6000 } else { 1200 };
         for i in 0..n {
